@@ -177,7 +177,7 @@ class FIXNewOrderSingle:
 
         cxl_req_msg = FIXMessage(FMsg.ORDERCANCELREQUEST)
         cxl_req_msg[11] = self.clord_id
-        cxl_req_msg[38] = self.qty
+        cxl_req_msg[38] = fix_number(self.qty)
         cxl_req_msg[41] = self.orig_clord_id
         self.set_instrument(cxl_req_msg)
         cxl_req_msg[FTag.Side] = self.side
